@@ -54,7 +54,221 @@ def forwarder(prog):
         raise AnalysisError('UNRECOGNISED-IDIOM %s: the subscriber callback '
                             'is not a function nested in crosswire_pubsub'
                             % cw.where)
-    return cw, cw.nested[cb.id], sub, pub, pubvar
+    spec = getattr(cw, '_c16_spec', None)
+    if spec is None or spec[0] is not cw.nested[cb.id]:
+        spec = cw._c16_spec = (cw.nested[cb.id],
+                               specialise(prog, cw, cw.nested[cb.id]))
+    return cw, spec[1], sub, pub, pubvar
+
+
+# ------------------------------------------------------------------------------
+# the callback as one function
+#
+# The callback may delegate its decision to other functions nested in the wiring
+# method (one predicate per direction, selected once per wire: `accept = a if
+# from_proxy else b`).  Those calls are inlined, so that the table extraction
+# sees one function again: a call through a name that the wiring method binds
+# under tests of its own (never re-bound) parameters becomes an if-chain over
+# those tests with one inlined copy per binding.
+#
+def _free_names(fn):
+    """names a function reads which are neither its parameters nor assigned
+    in it"""
+    own = {a.arg for a in fn.args.posonlyargs + fn.args.args +
+           fn.args.kwonlyargs}
+    own |= {n.id for n in walk(fn) if isinstance(n, ast.Name) and
+            isinstance(n.ctx, (ast.Store, ast.Del))}
+    return {n.id for n in walk(fn) if isinstance(n, ast.Name) and
+            isinstance(n.ctx, ast.Load) and n.id not in own}
+
+
+def _closure_defs(cw, name):
+    """[(guards, nested FuncInfo)]: the functions nested in the wiring method
+    `cw` to which `name` is bound when the callback runs, each with the branch
+    edges {(test node id, label)} of cw under which that binding is made; None
+    if that is not decided (bound to something else, bindings that do not
+    exclude each other, tests of something that may change)"""
+    from ..flow import guards
+    g = cfg_of(cw)
+    stores = sum(1 for n in walk(cw.node, nested=True)
+                 if isinstance(n, ast.Name) and n.id == name and
+                 isinstance(n.ctx, (ast.Store, ast.Del)))
+    for n in walk(cw.node, nested=True):
+        if isinstance(n, (ast.Nonlocal, ast.Global)) and name in n.names:
+            return None
+
+    def sole_def(nm):
+        return nm in cw.nested and not any(
+            isinstance(n, ast.Name) and n.id == nm and
+            isinstance(n.ctx, (ast.Store, ast.Del))
+            for n in walk(cw.node, nested=True)) and sum(
+                1 for n in g.nodes if isinstance(n.ast, ast.FunctionDef) and
+                n.ast.name == nm) == 1
+    if sole_def(name):
+        return [(frozenset(), cw.nested[name])]
+    if name in cw.nested or name in cw.params:
+        return None
+    stable = {p for p in cw.params if p != 'self' and not any(
+        isinstance(n, ast.Name) and n.id == p and
+        isinstance(n.ctx, (ast.Store, ast.Del))
+        for n in walk(cw.node, nested=True))}
+    out = []
+    for n in g.nodes:
+        a = n.ast
+        if n.kind != 'stmt' or not isinstance(a, ast.Assign) or not any(
+                isinstance(t, ast.Name) and t.id == name for t in a.targets):
+            continue
+        if len(a.targets) != 1 or not isinstance(a.value, ast.Name) or \
+                not sole_def(a.value.id):
+            return None
+        gs = frozenset(guards(g, n.id))
+        for tid, lab in gs:
+            t = g.nodes[tid].ast
+            if any(not isinstance(x, (ast.Name, ast.Load)) or
+                   isinstance(x, ast.Name) and x.id not in stable
+                   for x in ast.walk(t)):
+                return None
+        out.append((gs, cw.nested[a.value.id]))
+    if not out or len(out) != stores:
+        return None
+    for i, (g1, _) in enumerate(out):
+        for g2, _ in out[i + 1:]:
+            if not any((tid, 'F' if lab == 'T' else 'T') in g2
+                       for tid, lab in g1):
+                return None
+    return [(sorted(gs), f) for gs, f in out]
+
+
+def specialise(prog, cw, fwd):
+    """FuncInfo of the callback with the calls of other closures of the
+    wiring method inlined (the callback itself if there are none, or if they
+    have a shape that cannot be inlined: the extraction then meets the call
+    as a test it cannot interpret)"""
+    import copy
+    from .. import normalize as N
+    from ..model import FuncInfo
+    from ..canon import canonicalize
+    g = cfg_of(cw)
+
+    class One(N.Inliner):
+        def __init__(self, target):
+            N.Inliner.__init__(self, prog, {})
+            self.target = target
+
+        def callee(self, finfo, call):
+            return self.target
+
+    def inlinable(f, local):
+        fn = f.node
+        a = fn.args
+        if a.vararg or a.kwarg or a.kwonlyargs or a.posonlyargs or \
+                isinstance(fn, ast.AsyncFunctionDef):
+            return False
+        if any(isinstance(x, (ast.Yield, ast.YieldFrom, ast.Await, ast.Global,
+                              ast.Nonlocal, ast.FunctionDef, ast.ClassDef,
+                              ast.Lambda)) for x in ast.walk(fn) if x is not fn):
+            return False
+        if sum(1 for x in ast.walk(fn) if isinstance(x, ast.stmt)) > 80:
+            return False
+        # a free name of the callee must mean the same thing in the callback
+        return not (_free_names(fn) & local) and fn.name not in _free_names(fn)
+
+    def guard_test(gs):
+        parts = []
+        for tid, lab in gs:
+            t = copy.deepcopy(g.nodes[tid].ast)
+            parts.append(t if lab == 'T' else
+                         ast.UnaryOp(op=ast.Not(), operand=t))
+        return parts[0] if len(parts) == 1 else ast.BoolOp(op=ast.And(),
+                                                           values=parts)
+
+    node = copy.deepcopy(fwd.node)
+    info = FuncInfo(fwd.name, fwd.qual, fwd.module, fwd.cls, node, parent=cw)
+    count = [0]
+
+    def the_call(s):
+        if isinstance(s, ast.Expr):
+            c = s.value
+        elif isinstance(s, ast.Assign) and len(s.targets) == 1:
+            c = s.value
+        elif isinstance(s, ast.Return):
+            c = s.value
+        elif isinstance(s, ast.If):
+            c = s.test
+            if isinstance(c, ast.UnaryOp) and isinstance(c.op, ast.Not):
+                c = c.operand
+        else:
+            c = None
+        return c if isinstance(c, ast.Call) and isinstance(c.func, ast.Name) \
+            else None
+
+    def replacement(s, local):
+        c = the_call(s)
+        if c is None or c.func.id in local:
+            return None
+        defs = _closure_defs(cw, c.func.id)
+        if not defs:
+            return None
+        arms = []
+        for gs, f in defs:
+            if f.node is fwd.node or not inlinable(f, local):
+                return None
+            tgt = FuncInfo(f.name, f.qual, f.module, None, f.node, parent=cw)
+            rep = One(tgt).inline_stmt(info, copy.deepcopy(s), local)
+            if rep is None:
+                return None
+            arms.append((gs, rep))
+        if len(arms) == 1 and not arms[0][0]:
+            return arms[0][1]
+        # if-chain over the tests that select the binding; a wire for which no
+        # binding is made calls an unbound name
+        tail = [ast.Raise(exc=ast.Call(
+            func=ast.Name(id='NameError', ctx=ast.Load()),
+            args=[ast.Constant(value=c.func.id)], keywords=[]), cause=None)]
+        if len(arms) == 2 and len(arms[0][0]) == 1 and \
+                len(arms[1][0]) == 1 and \
+                arms[0][0][0][0] == arms[1][0][0][0]:
+            # the two arms of one test
+            tail = arms.pop()[1]
+        for gs, rep in reversed(arms):
+            tail = [ast.copy_location(ast.If(test=guard_test(gs), body=rep,
+                                             orelse=tail), s)]
+        return tail
+
+    def do_block(stmts, local):
+        out = []
+        for s in stmts:
+            if isinstance(s, (ast.FunctionDef, ast.ClassDef,
+                              ast.AsyncFunctionDef)):
+                out.append(s)
+                continue
+            for fld in ('body', 'orelse', 'finalbody'):
+                b = getattr(s, fld, None)
+                if isinstance(b, list) and b and isinstance(b[0], ast.stmt):
+                    setattr(s, fld, do_block(b, local))
+            for h in getattr(s, 'handlers', None) or []:
+                h.body = do_block(h.body, local)
+            rep = replacement(s, local)
+            if rep is None:
+                out.append(s)
+            else:
+                count[0] += 1
+                out += rep
+        return out
+
+    for _ in range(3):                      # closures calling closures
+        before = count[0]
+        local = N._assigned(node) | set(info.params)
+        node.body = do_block(node.body, local)
+        if count[0] == before:
+            break
+    if not count[0]:
+        return fwd
+    canonicalize(ast.Module(body=[node], type_ignores=[]))
+    ast.fix_missing_locations(node)
+    info = FuncInfo(fwd.name, fwd.qual, fwd.module, fwd.cls, node, parent=cw)
+    info.inlined = count[0]
+    return info
 
 
 # ------------------------------------------------------------------------------
@@ -63,12 +277,31 @@ def forwarder(prog):
 class Atoms:
     """classification of branch tests and statements of the forwarder"""
 
-    def __init__(self, msg, pubvar):
+    def __init__(self, msg, pubvar, fn=None):
         self.msg = msg
         self.pubvar = pubvar
+        # locals of the callback that cache the side identity (bound once, to
+        # `self._module`, which has no writer outside __init__: R16.2)
+        self.aliases = set()
+        if fn is not None:
+            stores = {}
+            for n in walk(fn):
+                if isinstance(n, ast.Name) and \
+                        isinstance(n.ctx, (ast.Store, ast.Del)):
+                    stores[n.id] = stores.get(n.id, 0) + 1
+            for n in walk(fn):
+                if isinstance(n, ast.Assign) and len(n.targets) == 1 and \
+                        isinstance(n.targets[0], ast.Name) and \
+                        stores.get(n.targets[0].id) == 1 and \
+                        unparse(n.value) == 'self._module':
+                    self.aliases.add(n.targets[0].id)
 
     def _is_msg(self, e):
         return isinstance(e, ast.Name) and e.id == self.msg
+
+    def is_module(self, e):
+        return unparse(e) == 'self._module' or (
+            isinstance(e, ast.Name) and e.id in self.aliases)
 
     def _msg_key(self, e):
         """'origin' for msg['origin'] / msg.get('origin'[, None|False])"""
@@ -91,16 +324,27 @@ class Atoms:
         k, how = self._msg_key(t)
         if k == 'fwd':
             return ('F', True, False)
+        if k == 'origin' and how == 'get':
+            # the tag tested by value: absent (None) is false, the identity
+            # of a side is true
+            return ('O', True, False)
         if isinstance(t, ast.Compare) and len(t.ops) == 1:
             op = t.ops[0]
             l, r = t.left, t.comparators[0]
+            if isinstance(op, (ast.Is, ast.IsNot, ast.Eq, ast.NotEq)) and \
+                    isinstance(r, ast.Constant) and r.value is None:
+                k, how = self._msg_key(l)
+                if k == 'origin' and how == 'get' and (
+                        len(l.args) == 1 or l.args[1].value is None):
+                    return ('O', isinstance(op, (ast.IsNot, ast.NotEq)),
+                            False)
             if isinstance(op, (ast.In, ast.NotIn)) and self._is_msg(r) and \
                     isinstance(l, ast.Constant) and l.value == 'origin':
                 return ('O', isinstance(op, ast.In), False)
             if isinstance(op, (ast.Eq, ast.NotEq)):
                 for a, b in ((l, r), (r, l)):
                     k, how = self._msg_key(a)
-                    if k == 'origin' and unparse(b) == 'self._module':
+                    if k == 'origin' and self.is_module(b):
                         return ('M', isinstance(op, ast.Eq), how == 'sub')
             if isinstance(op, (ast.Is, ast.Eq)) and \
                     isinstance(r, ast.Constant) and r.value is True:
@@ -139,7 +383,7 @@ def extract_table(prog, rep, cw, fwd, pubvar):
         raise AnalysisError('UNRECOGNISED-IDIOM %s: callback is not '
                             '(topic, msg)' % fwd.where)
     msg = params[1]
-    at = Atoms(msg, pubvar)
+    at = Atoms(msg, pubvar, fwd.node)
     g = cfg_of(fwd)
     rep.stat('cfg_nodes', len(g.nodes))
     unknown_tests = set()
@@ -207,8 +451,7 @@ def extract_table(prog, rep, cw, fwd, pubvar):
                         if k == 'origin':
                             O = True
                             M = True if (v is not None and
-                                         unparse(v) == 'self._module') \
-                                else None
+                                         at.is_module(v)) else None
                         elif k == 'fwd':
                             F = v.value if isinstance(v, ast.Constant) and \
                                 isinstance(v.value, bool) else None
@@ -240,8 +483,7 @@ def extract_table(prog, rep, cw, fwd, pubvar):
                             len(n.args) == 2:
                         if O is False:
                             O = True
-                            M = True if unparse(n.args[1]) == 'self._module' \
-                                else None
+                            M = True if at.is_module(n.args[1]) else None
                         elif O is None:
                             M = None
                     elif meth == 'setdefault' and k not in ('origin', 'fwd',
@@ -305,84 +547,91 @@ def _consistent(table, fwd, unknown):
                            '; '.join(unknown) or 'none seen'))
 
 
-def table_by_value(prog, rep, cw, fwd, pubvar):
-    """the same table from a value interpretation of the callback on the 12
-    concrete messages (this side 'ME', another side 'OTHER'), once per value
-    of every recognised log switch; None if some outcome is not decided"""
+def _log_switches(fwd):
+    g = cfg_of(fwd)
+    return sorted({Atoms.log_switch(n.ast) for n in g.nodes
+                   if n.kind == 'test' and Atoms.log_switch(n.ast) and
+                   isinstance(n.ast, ast.Name)})
+
+
+def outcomes_by_value(prog, fwd, pubvar, P, m):
+    """set((switch assignment, effects)) of the callback for the concrete
+    message `m` (this side is 'ME') arriving at a forwarder wired with
+    from_proxy=P, once per value of every recognised log switch; None if some
+    outcome is not decided"""
     import itertools
     params = fwd.params
     if len(params) < 2:
         return None
     msg = params[1]
-    g = cfg_of(fwd)
-    switches = sorted({Atoms.log_switch(n.ast) for n in g.nodes
-                       if n.kind == 'test' and Atoms.log_switch(n.ast) and
-                       isinstance(n.ast, ast.Name)})
+    switches = _log_switches(fwd)
     if len(switches) > 3:
         return None
     sess = prog.cls(*SESS)
+    outs = set()
+    for vals in itertools.product((True, False), repeat=len(switches)):
+        puts = []
+
+        def observe(fn, node, env, puts=puts):
+            if fn is not fwd or node.kind != 'stmt' or node.ast is None:
+                return
+            for c in calls_in(node.ast):
+                if isinstance(c.func, ast.Attribute) and \
+                        c.func.attr == 'put' and \
+                        unparse(c.func.value) == pubvar:
+                    v = ip.ev(fn, c.args[1], env) \
+                        if len(c.args) == 2 else UNK
+                    puts.append((env.get('@p', 0), c, v))
+                    env['@p'] = env.get('@p', 0) + 1
+        inputs = dict(zip(switches, vals))
+        inputs.update({'from_proxy': P, 'self._module': 'ME'})
+        ip = Interp(prog, sess, inputs=inputs, observe=observe)
+        exits = ip.run(fwd, {msg: dict(m), params[0]: 'topic'})
+        # every feasible path must agree on the sequence of puts: group by
+        # the '@p' counter at the exits
+        counts = {dict(fe).get('@p', 0) for fe in exits}
+        if len(counts) != 1 or not exits:
+            return None
+        n = counts.pop()
+        seq = {}
+        for i, c, v in puts:
+            seq.setdefault(i, set()).add(
+                (id(c), repr(v) if isinstance(v, dict) else None))
+        if any(len(x) != 1 for x in seq.values()) or len(seq) != n:
+            return None
+        eff = []
+        for i in range(n):
+            c, v = [(c, v) for j, c, v in puts if j == i][0]
+            if not isinstance(v, dict) or any(x is UNK for x in v.values()):
+                return None
+            eff.append(('put', 'origin' in v,
+                        v.get('origin') == 'ME' if 'origin' in v else None,
+                        bool(v.get('fwd')),
+                        len(c.args) == 2 and unparse(c.args[0]) == 'tgt',
+                        True))
+        outs.add((tuple(zip(switches, vals)), tuple(eff)))
+    return outs
+
+
+def table_by_value(prog, rep, cw, fwd, pubvar):
+    """the same table from a value interpretation of the callback on the 12
+    concrete messages (this side 'ME', another side 'OTHER'), once per value
+    of every recognised log switch; None if some outcome is not decided"""
     table = {}
     for P in (True, False):
         for O in (True, False):
             for F in (True, False):
                 for M in ((True, False) if O else (None,)):
-                    outs = set()
-                    for vals in itertools.product((True, False),
-                                                  repeat=len(switches)):
-                        m = {}
-                        if O:
-                            m['origin'] = 'ME' if M else 'OTHER'
-                        if F:
-                            m['fwd'] = True
-                        puts = []
-
-                        def observe(fn, node, env, puts=puts):
-                            if fn is not fwd or node.kind != 'stmt' or \
-                                    node.ast is None:
-                                return
-                            for c in calls_in(node.ast):
-                                if isinstance(c.func, ast.Attribute) and \
-                                        c.func.attr == 'put' and \
-                                        unparse(c.func.value) == pubvar:
-                                    v = ip.ev(fn, c.args[1], env) \
-                                        if len(c.args) == 2 else UNK
-                                    puts.append((env.get('@p', 0), c, v))
-                                    env['@p'] = env.get('@p', 0) + 1
-                        inputs = dict(zip(switches, vals))
-                        inputs.update({'from_proxy': P, 'self._module': 'ME'})
-                        ip = Interp(prog, sess, inputs=inputs,
-                                    observe=observe)
-                        exits = ip.run(fwd, {msg: m, params[0]: 'topic'})
-                        # every feasible path must agree on the sequence of
-                        # puts: group by the '@p' counter at the exits
-                        counts = {dict(fe).get('@p', 0) for fe in exits}
-                        if len(counts) != 1 or not exits:
-                            return None
-                        n = counts.pop()
-                        seq = {}
-                        for i, c, v in puts:
-                            seq.setdefault(i, set()).add(
-                                (id(c), repr(v) if isinstance(v, dict)
-                                 else None))
-                        if any(len(x) != 1 for x in seq.values()) or \
-                                len(seq) != n:
-                            return None
-                        eff = []
-                        for i in range(n):
-                            hit = [(c, v) for j, c, v in puts if j == i][0]
-                            c, v = hit
-                            if not isinstance(v, dict) or \
-                                    any(x is UNK for x in v.values()):
-                                return None
-                            eff.append(('put', 'origin' in v,
-                                        v.get('origin') == 'ME'
-                                        if 'origin' in v else None,
-                                        bool(v.get('fwd')),
-                                        len(c.args) == 2 and
-                                        unparse(c.args[0]) == 'tgt', True))
-                        outs.add((tuple(zip(switches, vals)), tuple(eff)))
+                    m = {}
+                    if O:
+                        m['origin'] = 'ME' if M else 'OTHER'
+                    if F:
+                        m['fwd'] = True
+                    outs = outcomes_by_value(prog, fwd, pubvar, P, m)
+                    if outs is None:
+                        return None
                     table[(P, O, M, F)] = outs
-    rep.stat('value_runs', 12 * (2 ** len(switches)))
+    rep.stat('value_runs', 12 * (2 ** len(_log_switches(fwd))))
     return table
 
 
